@@ -75,7 +75,13 @@ def nng(variant="asan"):
     with _Lock(f"nng-{variant}"):
         if os.path.exists(info):
             os.utime(d)
-            return json.load(open(info))
+            res = json.load(open(info))
+            # the cache key is the CONTENT of the tree: the same content may since live elsewhere (a scratch worktree
+            # that was removed): point the include paths at the tree in use now
+            old = res.get("repo")
+            if old and old != REPO:
+                res["cflags"] = [("-I" + REPO + t[2 + len(old):]) if t.startswith("-I" + old) else t for t in res["cflags"]]
+            return res
         shutil.rmtree(d, ignore_errors=True)
         os.makedirs(d)
         t0 = time.time()
@@ -95,7 +101,7 @@ def nng(variant="asan"):
         ent = next(e for e in cc if e["file"].endswith("src/core/aio.c"))
         toks = shlex.split(ent["command"])
         cflags = [t for t in toks if t.startswith("-D") or t.startswith("-I")]
-        res = {"dir": d, "lib": os.path.join(d, "libnng.a"), "cflags": cflags, "hash": key, "tree": th,
+        res = {"dir": d, "lib": os.path.join(d, "libnng.a"), "cflags": cflags, "hash": key, "tree": th, "repo": REPO,
                "variant": variant, "build_s": round(time.time() - t0, 1)}
         # drop object files: only the archive and the config header are needed
         for sub in ("CMakeFiles",):
